@@ -55,6 +55,10 @@ type Case struct {
 	N      int      `json:"n"`
 	Ch     Choice   `json:"choice"`
 	Flips  []Flip   `json:"flips,omitempty"`
+	// After are honest batches on the same pair after the (possibly
+	// faulted, possibly aborted) batch: a detected deviation must not make
+	// later honest executions abort or go wrong.
+	After []int `json:"after,omitempty"`
 }
 
 // ---------------------------------------------------------------------------
@@ -206,11 +210,17 @@ func run(cs Case) ev.Outcome {
 	delta := ot.Label{D0: cs.Delta[0], D1: cs.Delta[1]}
 	tio := &tamperIO{IO: sp}
 
-	sizes := append(append([]int{}, cs.Warmup...), cs.N)
+	for _, w := range cs.After {
+		if w < 1 {
+			return ev.Outcome{Skip: "bad case"}
+		}
+	}
+	sizes := append(append(append([]int{}, cs.Warmup...), cs.N), cs.After...)
 	nb := len(sizes)
+	faulted := len(cs.Warmup)
 	choices := make([][]bool, nb)
 	for i, n := range sizes {
-		if i == nb-1 {
+		if i == faulted {
 			choices[i] = cs.Ch.bits(n)
 		} else {
 			choices[i] = Choice{Class: "random", Seed: cs.Seed + uint64(i)}.bits(n)
@@ -231,7 +241,7 @@ func run(cs Case) ev.Outcome {
 		}
 		sender = s
 		for i, n := range sizes {
-			if i == nb-1 {
+			if i == faulted {
 				tio.arm(n, cs.Flips)
 			}
 			sent[i], sendErr[i] = s.Send(n, true)
@@ -262,10 +272,18 @@ func run(cs Case) ev.Outcome {
 		return ev.Fail("delta-not-used", "NewIKNPSender ignored the given delta")
 	}
 
-	// Honest warm-up batches: never abort, correlation holds.
-	for i := 0; i < nb-1; i++ {
+	// Honest batches before and after: never abort, correlation holds.
+	for i := 0; i < nb; i++ {
+		if i == faulted {
+			continue
+		}
 		if sendErr[i] != nil {
-			return ev.Fail("honest/abort", "honest malicious-mode batch %d/%d (n=%d) aborted: %v", i, nb, sizes[i], sendErr[i])
+			sig := "honest/abort"
+			if i > faulted && len(eff) > 0 {
+				sig = "honest/abort-after-fault"
+			}
+			return ev.Fail(sig, "honest malicious-mode batch %d/%d (n=%d; batch %d had the flips %v, its Send returned %v) aborted: %v",
+				i, nb, sizes[i], faulted, cs.Flips, sendErr[faulted], sendErr[i])
 		}
 		if len(sent[i]) != sizes[i] {
 			return ev.Fail("honest/count", "honest batch %d: Send returned %d labels for n=%d", i, len(sent[i]), sizes[i])
@@ -275,7 +293,7 @@ func run(cs Case) ev.Outcome {
 		}
 	}
 
-	last := nb - 1
+	last := faulted
 	for i, ok := range tio.applied {
 		if !ok {
 			return ev.Outcome{Skip: fmt.Sprintf("flip %v not applicable", cs.Flips[i])}
@@ -375,7 +393,8 @@ func run(cs Case) ev.Outcome {
 		nExpectAccept.Add(1)
 	}
 	cl.add("base=" + cs.Base)
-	cl.add(fmt.Sprintf("warmup=%d", nb-1))
+	cl.add(fmt.Sprintf("warmup=%d", len(cs.Warmup)))
+	cl.add(fmt.Sprintf("honest-batches-after=%d", len(cs.After)))
 	for _, s := range sizeClasses(cs.N) {
 		cl.add(s)
 	}
@@ -479,6 +498,9 @@ func genCase(t *rapid.T) Case {
 		cs.N = rapid.SampledFrom(sizesC15).Draw(t, "ntab")
 	}
 	cs.Ch = drawChoice(t, cs.N)
+	for i := rapid.SampledFrom([]int{0, 0, 1, 1, 2}).Draw(t, "nafter"); i > 0; i-- {
+		cs.After = append(cs.After, drawN(t, 700))
+	}
 	if rapid.IntRange(0, 19).Draw(t, "faultkind") == 10 {
 		return cs // honest
 	}
